@@ -17,13 +17,25 @@ import numpy as np
 
 from .tlc import run_tlc, wrapper
 
-VARS = ["alpha", "beta"]          # alpha: scalar field, beta: rank-1 tensor field
+VARS = ["alpha", "beta", "mass"]  # alpha: scalar field, beta: rank-1 tensor field, mass: one number per iteration
 DICTS = [
     # it column, hasT, cols: 1 = array, 0 = None entry; [] = None column
     {"it": [0, 10, 20], "hasT": True, "cols": {"alpha": [1, 1, 1], "beta": [1, 1, 1]}},
     {"it": [20, 0, 10], "hasT": True, "cols": {"alpha": [1, 0, 1], "beta": []}},
     {"it": [], "hasT": False, "cols": {"alpha": [1, 1], "beta": [1, 1]}},
     {"it": [10, 30], "hasT": False, "cols": {"alpha": [1, 1], "beta": [0, 1]}},
+]
+# second family: a dictionary as read_data / over_time return it (numpy columns, numpy 'it'), with a scalar-valued variable
+DICTS_B = [
+    {"it": [0, 10, 20], "hasT": True, "cols": {"alpha": [1, 1, 1], "beta": [1, 1, 1]}},
+    {"it": [30, 10], "hasT": True, "numpy": True, "cols": {"alpha": [1, 1], "beta": [], "mass": [1, 1]}},
+]
+ITSELS_B = [[10], [30, 10], [0, 10, 20]]
+VARSELS_B = [[], ["mass"], ["alpha"]]
+QUERIES_B = [
+    {"it": [0, 10, 20, 30], "vars": [], "rl": 0},
+    {"it": [30, 10], "vars": ["mass", "alpha"], "rl": 0},
+    {"it": [10, 30], "vars": [], "rl": 1},
 ]
 ITSELS = [[0], [20], [0, 10, 20], [20, 0], [10, 10], [10, 30], [5, 10]]
 VARSELS = [[], ["alpha"], ["beta"]]
@@ -88,6 +100,8 @@ def make_value(di, v, p):
     """The array saved for (dictionary di, variable v, position p): content and dtype identify the token."""
     dt = DTYPES.get(di, np.float64)
     frac = 0 if dt is np.int64 else 0.25
+    if v == "mass":
+        return np.float64(code(di, v, p) + 0.25)
     if v == "alpha":
         return np.full((2, 3, 2), code(di, v, p) + frac).astype(dt)
     return np.stack([np.full((2, 3, 2), code(di, v, p) + frac + (0 if dt is np.int64 else 0.0625 * c)) + (c if dt is np.int64 else 0)
@@ -115,6 +129,8 @@ def make_dict(di, dicts=DICTS):
             else:
                 lst.append(make_value(di, v, p))
         out[v] = lst
+    if d.get("numpy"):
+        out = {k: (np.array(v) if v is not None and all(x is not None for x in v) else v) for k, v in out.items()}
     return out
 
 
@@ -131,6 +147,8 @@ def decode_value(v, val, it):
         p = int(round(x - d * 1000 - 900 - 0.5))
         ok = abs(x - (d * 1000 + 900 + p + 0.5)) < 1e-9
         return {"d": d, "v": "t", "p": p} if ok else {"garbage": x}
+    if v == "mass" and a.shape != ():
+        return {"garbage": "mass is one number per iteration", "shape": list(a.shape)}
     flat = a.reshape(-1)
     c = int(np.floor(float(flat[0])))
     d, rest = divmod(c, 1000)
